@@ -65,6 +65,22 @@ theorem clean_idempotent_of (L : Lists) (c : Cfg) (hs : Settled L c) (roots : Li
     clean L c (clean L c roots) = clean L c roots :=
   clean_fixes_allowed L c 0 _ (clean_establishes_clean L c hs roots)
 
+/-- html5ever as a parameter. `reparse` stands for "serialize, then parse again" (external code,
+not modelled); the only assumption used is that it maps a clean forest to a clean forest — what
+the re-parse oracle checks on every generated case. Then sanitizing the re-parsed first output
+removes and rewrites nothing: it equals the plain parse-and-reserialize of that output. -/
+theorem clean_reparse_fixpoint (L : Lists) (c : Cfg) (hs : Settled L c)
+    (reparse : List Node → List Node)
+    (hp : ∀ t, Clean L c 0 t → Clean L c 0 (reparse t)) (roots : List Node) :
+    clean L c (reparse (clean L c roots)) = reparse (clean L c roots) :=
+  clean_fixes_allowed L c 0 _ (hp _ (clean_establishes_clean L c hs roots))
+
+/-- The assumption on `reparse` is satisfiable (trivially by the identity: a serializer/parser
+pair that round-trips clean trees exactly). -/
+example (L : Lists) (c : Cfg) (hs : Settled L c) (roots : List Node) :
+    clean L c (id (clean L c roots)) = id (clean L c roots) :=
+  clean_reparse_fixpoint L c hs id (fun _ h => h) roots
+
 /-- The hypothesis is satisfiable on a non-trivial configuration of the public builder: compat
 mode, reply-fallback removal, `center` replaced by `div`, `u` removed, `span[style]` allowed. -/
 example : Settled lists
@@ -173,6 +189,18 @@ theorem unchanged_iff_allowed (m : Mode) (rrf : Bool) (f : List Node) :
     rw [h] at hc
     exact ⟨(allElemsL_congr _ _ (elemFine_iff_cleanElem m rrf) f 0).2 hc.1, hc.2⟩
   · exact allowed_grammar_unchanged m rrf f
+
+/-- The same in the spec's words for strict and compat mode: if re-parsing the serialization of a
+document of the allow-list grammar yields a document of the grammar (the assumption on html5ever
+that the re-parse oracle checks), sanitizing sanitized output is a plain parse-and-reserialize. -/
+theorem sanitized_output_reparse_unchanged (m : Mode) (rrf : Bool)
+    (reparse : List Node → List Node)
+    (hp : ∀ t, Allowed m rrf 0 t → Allowed m rrf 0 (reparse t)) (roots : List Node) :
+    clean lists (plain (some m) rrf) (reparse (clean lists (plain (some m) rrf) roots)) =
+      reparse (clean lists (plain (some m) rrf) roots) := by
+  apply allowed_grammar_unchanged
+  apply hp
+  exact (unchanged_iff_allowed m rrf _).1 (clean_idempotent (some m) rrf roots)
 
 /-- The hypothesis of `allowed_grammar_unchanged` on a concrete non-trivial document:
 `<a href="https://x" target="_blank"><code class="language-rust x">t</code></a>` is NOT in the
@@ -349,6 +377,7 @@ end Ruma.Props.C15
 #print axioms Ruma.Props.C15.clean_only_rewrites
 #print axioms Ruma.Props.C15.clean_establishes_clean
 #print axioms Ruma.Props.C15.clean_idempotent_of
+#print axioms Ruma.Props.C15.clean_reparse_fixpoint
 #print axioms Ruma.Props.C15.not_idempotent_chained_replacement
 #print axioms Ruma.Props.C15.standard_settled
 #print axioms Ruma.Props.C15.spec_lists_consistent
@@ -357,6 +386,7 @@ end Ruma.Props.C15
 #print axioms Ruma.Props.C15.elemFine_iff_cleanElem
 #print axioms Ruma.Props.C15.allowed_grammar_unchanged
 #print axioms Ruma.Props.C15.unchanged_iff_allowed
+#print axioms Ruma.Props.C15.sanitized_output_reparse_unchanged
 #print axioms Ruma.Props.C15.allowedB_iff
 #print axioms Ruma.Props.C15.deprecated_rewritten
 #print axioms Ruma.Props.C15.rewrite_preserves
